@@ -402,6 +402,11 @@ pub fn case_solve(ctx: &mut Ctx, case: &Value) {
             }
         }
     }
+    if std::env::var("HARNESS_DEBUG").is_ok() {
+        if let Outcome::Ok(r) = &out {
+            eprintln!("solve {} T={} threads={} target={:?}: bounds {:?}", cfg.method, cfg.iters, cfg.threads, cfg.target, r.bounds);
+        }
+    }
     let res = match &out {
         Outcome::Ok(r) => r.clone(),
         Outcome::Err(e) => {
@@ -711,7 +716,13 @@ pub fn c03(ctx: &mut Ctx) -> String {
         ctx.stat(&format!("family_{}", fam));
         let (pn, params) = Params::presets()[(i % 5) as usize];
         ctx.stat(&format!("preset_{}", pn));
-        let iters = grid[((i / 5) as usize) % grid.len()];
+        let mut iters = grid[((i / 5) as usize) % grid.len()];
+        // small games are cheap: long budgets, where the envelope is tight enough to see a regret
+        // that stopped shrinking
+        if t.size() <= 40 && (i / 5) % 2 == 1 {
+            iters = *ctx.rng.pick(&[20_000u64, 100_000]);
+            ctx.stat("long_budget_runs_on_small_games");
+        }
         let threads = *ctx.rng.pick(&[1usize, 1, 2, 16]);
         let cfg = Cfg { method: "F".into(), params, iters, thr: 0.0, threads, target: None, seed: 0 };
         if i < 2 {
@@ -723,7 +734,7 @@ pub fn c03(ctx: &mut Ctx) -> String {
     }
     // regret tends to zero: mean relative regret per budget must decrease along the grid
     let mut means = Vec::new();
-    for tt in grid {
+    for tt in grid.iter().chain([20_000u64, 100_000].iter()) {
         let s = ctx.stats.get(&format!("sum_ppm_T{}", tt)).cloned().unwrap_or(0);
         let k = ctx.stats.get(&format!("n_T{}", tt)).cloned().unwrap_or(0);
         if k >= 5 {
